@@ -161,6 +161,7 @@ def run(rep, tier):
     tails = [p for n in (4, 5, 6) for p in all_pairings(n) if is_knotted(p)]
     small = [p for n in (4, 5) for p in all_pairings(n) if is_knotted(p)]
     structs = [concat(a, b) for a in tails for b in small] + [padded(k, tails[0]) for k in (8, 9, 10, 11, 12)]
+    structs = [list(t) for t in dict.fromkeys(tuple(x) for x in structs)]       # a tail with a trailing unpaired position duplicates a shorter one
     cfgs = [(0, -1, -1), (0, 0, 5), (0, 1, 5), (0, 2, 2), (0, 3, 0), (0, 4, 4), (0, 5, 0), (1, 0, 0), (1, 5, 0), (2, -1, 0), (2, 1, 0), (2, 5, 0)]
     fam = [(p, c[0], c[1], c[2]) for p in structs for c in cfgs]
     pt = allsat.run_family("families", "harness.c13", "body", fam, ["two knotted structures one after the other; k leading hairpins + knot (k = 8..12)",
